@@ -6,11 +6,10 @@ import lib_doc as L
 from framework import Result
 
 ID = 'C01'
-# ---- PLACEHOLDER (to be filled in by the proof side): Lean targets and theorem names ----------
-LEAN_TARGETS = []
-THEOREMS = []
-# -----------------------------------------------------------------------------------------------
-PARTIAL = []
+LEAN_TARGETS = ['TexSoupProofs.Properties.C01']
+THEOREMS = ['TexSoup.C01.roundtrip', 'TexSoup.C01.roundtrip_tolerant', 'TexSoup.C01.node_text_is_its_tokens']
+PARTIAL = ['that every grammar document parses is token-level completeness (Properties/C02.lean, in progress) plus the '
+           'tokenizer inverse: explored by this check']
 TRUSTED = ['harness/gen_doc.py (grammar of documented constructs, renderer with source spans, frame conditions)',
            'correspondence harness (props/c01.py, lib_doc.py, common.py)']
 ASSUMPTIONS = ['CPython str semantics', 'the model driver is the compiled form of the verified definitions',
